@@ -1,5 +1,6 @@
 import BtcwVerif.Lemmas.SortedStore
 import BtcwVerif.Lemmas.RefRange
+import BtcwVerif.Lemmas.RefFacts
 /-!
 # Observables of a good pair whose buckets are in key order: EXACT answers (order included)
 
@@ -615,5 +616,66 @@ theorem range_refines_exact {s : Store} {L : Ledger} (hg : Good s L) (hn : NoCon
         bind_ok, pure_eq]
     · simp only [hb, he, if_false, decide_false, Bool.not_false, Bool.true_and, Bool.false_eq_true, hmid1, bind_ok,
         pure_eq]
+
+/-! ### the cursor order determines the answers: uniqueness, path independence -/
+
+/-- a list made of an ascending `p`-part followed by an ascending non-`p`-part is determined by its elements -/
+theorem append_eq_of_perm_sorted {α : Type} (p : α → Bool) (r : α → α → Prop) (hasym : ∀ a b, r a b → r b a → False)
+    {a1 b1 a2 b2 : List α} (hp : (a1 ++ b1).Perm (a2 ++ b2))
+    (ha1 : ∀ c ∈ a1, p c = true) (hb1 : ∀ c ∈ b1, p c = false)
+    (ha2 : ∀ c ∈ a2, p c = true) (hb2 : ∀ c ∈ b2, p c = false)
+    (sa1 : a1.Pairwise r) (sb1 : b1.Pairwise r) (sa2 : a2.Pairwise r) (sb2 : b2.Pairwise r) :
+    a1 ++ b1 = a2 ++ b2 := by
+  have f1 : ∀ {a b : List α}, (∀ c ∈ a, p c = true) → (∀ c ∈ b, p c = false) → (a ++ b).filter p = a := by
+    intro a b ha hb
+    rw [List.filter_append, List.filter_eq_self.mpr ha, List.filter_eq_nil_iff.mpr (fun c hc => by simp [hb c hc])]
+    exact List.append_nil _
+  have f2 : ∀ {a b : List α}, (∀ c ∈ a, p c = true) → (∀ c ∈ b, p c = false) →
+      (a ++ b).filter (fun c => !p c) = b := by
+    intro a b ha hb
+    rw [List.filter_append, List.filter_eq_nil_iff.mpr (fun c hc => by simp [ha c hc]),
+      List.filter_eq_self.mpr (fun c hc => by simp [hb c hc])]
+    exact List.nil_append _
+  have pa : a1.Perm a2 := by
+    have := hp.filter p
+    rwa [f1 ha1 hb1, f1 ha2 hb2] at this
+  have pb : b1.Perm b2 := by
+    have := hp.filter (fun c => !p c)
+    rwa [f2 ha1 hb1, f2 ha2 hb2] at this
+  rw [pa.eq_of_pairwise (fun a b _ _ hab hba => (hasym a b hab hba).elim) sa1 sa2,
+    pb.eq_of_pairwise (fun a b _ _ hab hba => (hasym a b hab hba).elim) sb1 sb2]
+
+theorem OutPoint.before_asymm (a b : OutPoint) (h1 : OutPoint.before a b) (h2 : OutPoint.before b a) : False := by
+  unfold OutPoint.before at h1 h2; omega
+
+/-- two good pairs with key-ordered stores and the same facts list the same spendable outputs IN THE SAME ORDER -/
+theorem utxos_path_independent {s1 s2 : Store} {L1 L2 : Ledger} (hg1 : Good s1 L1) (hg2 : Good s2 L2)
+    (hs1 : SortedS s1) (hs2 : SortedS s2) (hf : SameFacts L1 L2) :
+    unspentOutputs s1 L1.now = unspentOutputs s2 L2.now := by
+  obtain ⟨a1, b1, e1, p1, x1, y1, u1, v1⟩ := utxos_refines_exact hg1 hs1
+  obtain ⟨a2, b2, e2, p2, x2, y2, u2, v2⟩ := utxos_refines_exact hg2 hs2
+  rw [e1, e2]
+  rw [List.pairwise_map] at u1 v1 u2 v2
+  rw [append_eq_of_perm_sorted (fun c : Credit => c.block.isSome) (fun c c' : Credit => OutPoint.before c.op c'.op)
+    (fun a b => OutPoint.before_asymm _ _) (p1.trans (hf.utxos_perm.trans p2.symm))
+    x1 (fun c hc => by simp [y1 c hc]) x2 (fun c hc => by simp [y2 c hc]) u1 v1 u2 v2]
+
+/-- … and hold the same unconfirmed records in the same (hash) order -/
+theorem unmined_path_independent {s1 s2 : Store} {L1 L2 : Ledger} (hg1 : Good s1 L1) (hg2 : Good s2 L2)
+    (hs1 : SortedS s1) (hs2 : SortedS s2) (hf : SameFacts L1 L2) :
+    s1.unmined.map (·.2) = s2.unmined.map (·.2) := by
+  obtain ⟨p1, o1⟩ := unmined_order hg1 hs1
+  obtain ⟨p2, o2⟩ := unmined_order hg2 hs2
+  rw [List.pairwise_map] at o1 o2
+  exact (p1.trans (hf.pool.trans p2.symm)).eq_of_pairwise
+    (fun a b _ _ (hab : a.hash < b.hash) (hba : b.hash < a.hash) => absurd hab (Nat.lt_asymm hba)) o1 o2
+
+theorem rangeUnmined_path_independent {s1 s2 : Store} {L1 L2 : Ledger} (hg1 : Good s1 L1) (hg2 : Good s2 L2)
+    (hn1 : NoConflict L1) (hn2 : NoConflict L2) (hs1 : SortedS s1) (hs2 : SortedS s2) (hf : SameFacts L1 L2) :
+    rangeUnmined s1 = rangeUnmined s2 := by
+  rw [rangeUnmined_exact hg1 hn1 hs1, rangeUnmined_exact hg2 hn2 hs2, unmined_path_independent hg1 hg2 hs1 hs2 hf]
+  have : (fun t => detailsOf L1 t none) = (fun t => detailsOf L2 t none) := by
+    funext t; exact hf.detailsOf_eq hg1.lwf hg2.lwf t none
+  rw [this]
 
 end TxStore
